@@ -274,6 +274,9 @@ def prior_table(ix, R):
         # both compile calls use the same table, model first then observation
         second = cps[1]
         t2 = second.node.args[2] if len(second.node.args) > 2 else None
+        for k_ in second.node.keywords:
+            if k_.arg == 'fit_priors':
+                t2 = k_.value
         # (the arguments as values: the calls may sit in a helper that is handed the component)
         def arg_(ev_, k_, kw_):
             return ev_.args[k_] if len(ev_.args) > k_ else ev_.kw.get(kw_)
@@ -283,7 +286,8 @@ def prior_table(ix, R):
                                         (first, 1, 'driveparams', 'self._model.derivedParameters'),
                                         (second, 0, 'fitparams', 'self._observed.fittingParameters'),
                                         (second, 1, 'driveparams', 'self._observed.derivedParameters')))
-        shown = ' / '.join('compile_params(%s)' % ', '.join(fmt(fl, a_)[:50] for a_ in ev_.args) for ev_ in (first, second))
+        shown = ' / '.join('compile_params(%s)' % ', '.join([fmt(fl, a_)[:50] for a_ in ev_.args] + [
+            '%s=%s' % (k_, fmt(fl, v_)[:50]) for k_, v_ in sorted(ev_.kw.items())]) for ev_ in (first, second))
         R.check('4.order', 'ARG', site,
                 'model parameters are compiled first, then the observation\'s, with the same prior table',
                 okb, key=shown, detail=shown, loc=f.loc(first.node))
@@ -291,7 +295,8 @@ def prior_table(ix, R):
         # (fit_names / fit_latex index self._fit_priors by the fitted names)
         why = []
         for k, ce in enumerate(cps):
-            ret = fl.tab.atom('call', tuple(ce.args), extra=('fn:compile_params',))
+            from sa.helpers import call_atom
+            ret = call_atom(fl, 'compile_params', ce.args, ce.kw)
             tbl = fl.tab.atom('idx', (ret, fl.tab.const(2)))
             merged = False
             for e in calls(fl, 'update'):
@@ -311,8 +316,9 @@ def prior_table(ix, R):
                 not why, key='; '.join(why), detail='; '.join(why), loc=f.loc())
         # results: the three lists are what the model pass returned, extended by what the observation pass returned
         why = []
-        r1 = fl.tab.atom('call', tuple(cps[0].args), extra=('fn:compile_params',))
-        r2 = fl.tab.atom('call', tuple(cps[1].args), extra=('fn:compile_params',))
+        from sa.helpers import call_atom
+        r1 = call_atom(fl, 'compile_params', cps[0].args, cps[0].kw)
+        r2 = call_atom(fl, 'compile_params', cps[1].args, cps[1].kw)
         for attr_, k in (('fitting_parameters', 0), ('fitting_priors', 1), ('derived_parameters', 3)):
             asg = [e for e in fl.of('store') if fmt(fl, e.target) == 'self.' + attr_ and
                    fl.events.index(e) > fl.events.index(cps[0])]
